@@ -564,6 +564,8 @@ theorem move_index_ns {sD s' : Col} (hS : Shape sD) (hU : ∀ t ∈ sD.tables, t
     (hkp : kp < 2 ^ 64) (haa : a ≠ a') (sub : Option Nat)
     (hfresh : ¬ sD.current.Has kp a')
     (hsubpos : ∀ i, sub = some i → i < 64)
+    (hsubaddr : ∀ i, sub = some i → Entry.address
+      ((sD.current.page (sD.current.chunk kp)).getD i 0) sD.current.bits = a)
     (hA : ∀ x, x < 64 → sub ≠ some x →
       BaseMatch sD.current.bits kp (sD.current.page (sD.current.chunk kp)) x →
       Entry.address ((sD.current.page (sD.current.chunk kp)).getD x 0) sD.current.bits ≠ a)
@@ -575,7 +577,9 @@ theorem move_index_ns {sD s' : Col} (hS : Shape sD) (hU : ∀ t ∈ sD.tables, t
       (∀ t' ∈ sI.older, t' ∈ sD.tables ∨ ∀ kp' x, ¬ t'.Has kp' x) ∧
       (∀ kp' x, kp' < 2 ^ 64 → sI.current.Has kp' x →
         sD.current.Has kp' x ∨ (x = a' ∧ vis kp' = vis kp)) ∧
-      ¬ sI.current.Has kp a := by
+      ¬ sI.current.Has kp a ∧
+      (∀ t ∈ sD.tables, ∀ kp' x, t.Has kp' x → x ≠ a → ∃ t' ∈ sI.tables, t'.Has kp' x) ∧
+      (a' ≠ 0 → sI.current.Has kp a') := by
   have hwfc : TableWF sD.current := hS.wf _ (by simp [Col.tables])
   have hucur : sD.current.Uniq := hU _ (by simp [Col.tables])
   have hno : ∀ i x, x < 64 → x ≠ i →
@@ -603,7 +607,8 @@ theorem move_index_ns {sD s' : Col} (hS : Shape sD) (hU : ∀ t ∈ sD.tables, t
       have hb1 : sD.current.bits + 1 ≤ 49 := by
         simp only [triggerReindex, Table.new] at hmono; omega
       have hS1 := hS.trigger hb1
-      obtain ⟨hE, hSI, _⟩ := insertLoop_ok kp a' _ _ sI hS1 hi hb
+      obtain ⟨hE, hSI, hHas⟩ := insertLoop_ok kp a' _ _ sI hS1 hi hb
+      have hEE := (Ext.trigger sD).trans hE
       have hU1 : ∀ t ∈ (triggerReindex sD).tables, t.Uniq := by
         intro t ht'
         simp only [Col.tables, triggerReindex] at ht'
@@ -614,7 +619,8 @@ theorem move_index_ns {sD s' : Col} (hS : Shape sD) (hU : ∀ t ∈ sD.tables, t
           · have : t = sD.current := by simpa using h2
             rw [this]; exact hucur
       obtain ⟨r1, r2, r3⟩ := insertLoop_ns kp a' hkp _ _ sI hS1 hi hb hU1 (Table.not_has_new _ _ _)
-      refine ⟨sI, hs', hSI, hE.cfg, r1, fun t' ht' => ?_, fun kp' x hkp' hh => ?_, fun hh => ?_⟩
+      refine ⟨sI, hs', hSI, hE.cfg, r1, fun t' ht' => ?_, fun kp' x hkp' hh => ?_, fun hh => ?_,
+        fun t ht kp' x hh _ => hEE.has_all kp' x t ht hh, hHas⟩
       · rcases r2 t' ht' with h1 | h1
         · simp only [Col.tables, triggerReindex] at h1
           rcases List.mem_cons.1 h1 with h2 | h2
@@ -663,7 +669,18 @@ theorem move_index_ns {sD s' : Col} (hS : Shape sD) (hU : ∀ t ∈ sD.tables, t
         simp only [List.map_append, List.map_cons, List.map_nil] at this ⊢
         rw [hbt]; exact this
     refine ⟨_, hs', hSI, rfl, fun t' ht' => ?_, fun t' ht' => Or.inl (by simp [Col.tables]; exact Or.inr ht'),
-      fun kp' x hkp' hh => ?_, fun hh => ?_⟩
+      fun kp' x hkp' hh => ?_, fun hh => ?_, fun t0 ht0 kp' x hh hxa => ?_, fun ha0 => ?_⟩
+    rotate_left 3
+    · simp only [Col.tables] at ht0
+      rcases List.mem_cons.1 ht0 with e | e
+      · refine ⟨t, by simp [Col.tables], ?_⟩
+        rw [e] at hh
+        refine Table.has_of_pages sD.current t hbt _ i _ hp kp' x hh (fun _ => ?_)
+        rcases hsub with e1 | e1
+        · exact Or.inr (hz e1)
+        · left; rw [hsubaddr i e1]; exact fun e2 => hxa e2.symm
+      · exact ⟨t0, by simp [Col.tables]; exact Or.inr e, hh⟩
+    · exact Table.has_written sD.current t hwfc hbt kp a' i hi hla ha0 hp
     · simp only [Col.tables] at ht'
       rcases List.mem_cons.1 ht' with e | e
       · rw [e]; exact hut
@@ -740,7 +757,7 @@ theorem write_move_ns {s s' : Col} (hS : Shape s) (hSl : SlotInv s) (hN : NoStal
     obtain ⟨tl, htl, _⟩ := hN.live t ht kp' _ hkp' hh
     rw [hdead'] at htl; cases htl
   have hcurmem : s.current ∈ s.tables := by simp [Col.tables]
-  obtain ⟨sI, hs0, hSI, hcfgI, hUI, hold, hcurI, hgone⟩ := move_index_ns hSD
+  obtain ⟨sI, hs0, hSI, hcfgI, hUI, hold, hcurI, hgone, _, _⟩ := move_index_ns hSD
     (by rw [htabD]; exact hN.uniq) k.pre a _ hk.pre_lt haa (if j = 0 then some i else none)
     (by rw [hcurD]; exact hnoHas _ hcurmem _ hk.pre_lt)
     (fun i' hi' => by
@@ -748,6 +765,17 @@ theorem write_move_ns {s s' : Col} (hS : Shape s) (hSl : SlotInv s) (hN : NoStal
       · simp only [hj, if_true] at hi'
         injection hi' with hi'
         rw [← hi']; exact hF.pos
+      · simp [hj] at hi')
+    (fun i' hi' => by
+      by_cases hj : j = 0
+      · simp only [hj, if_true] at hi'
+        injection hi' with hi'
+        have hcur : tj = s.current := by
+          have := hF.tab
+          rw [hj] at this
+          simp only [Col.tables, List.getElem?_cons_zero, Option.some.injEq] at this
+          exact this.symm
+        rw [hcurD, ← hcur, ← hi']; exact hF.addr
       · simp [hj] at hi')
     (fun x hx hsx hm had => by
       rw [hcurD] at hm had
